@@ -997,6 +997,12 @@ fn record(seed: u64, tier: &str, out: &str) {
             let mut l = vec![0u16];
             l.extend(s.bounds.iter().map(|b| b.gid));
             lists.push(("boundary-glyphs".into(), l));
+            // and in two halves, so that one glyph a defect trips over does not keep all the others from being compared
+            for half in 0..2usize {
+                let mut l = vec![0u16];
+                l.extend(s.bounds.iter().enumerate().filter(|(i, _)| i % 2 == half).map(|(_, b)| b.gid));
+                lists.push((format!("boundary-glyphs-{}", if half == 0 { "even" } else { "odd" }), l));
+            }
         }
         let fd = match ReadScope::new(&s.file).read::<FontData<'_>>() {
             Ok(fd) => fd,
